@@ -224,6 +224,23 @@ def reuse_jobs(items, thorough, max_exec=800):
     return jobs
 
 
+def badpair_jobs(items, thorough, max_exec=800):
+    """Every connect() call of the scenario names one more attribute pair that mosaik rejects,
+    and the script handles the ScenarioError: the valid pairs of the call must behave exactly as
+    if they had been given alone."""
+    jobs = []
+    for name, scen in items:
+        if not any(c.get("sattr") for c in scen["conns"]):
+            continue
+        cfgs = [dict(lazy=True, cache=True, badpair=True),
+                dict(lazy=True, cache=False, badpair=True, sync="all")]
+        if thorough:
+            cfgs += [dict(lazy=False, cache=True, badpair=True), dict(lazy=True, cache=True, badpair=True, sync="all")]
+        for cfg in cfgs:
+            jobs.append(dict(name=name, scen=scen, cfg=cfg, budget=0, max_exec=max_exec))
+    return jobs
+
+
 def quick_jobs(seed=0):
     jobs = []
     for name, scen in scenarios.CATALOGUE.items():
@@ -236,6 +253,7 @@ def quick_jobs(seed=0):
     jobs += sync_jobs(scenarios.CATALOGUE.items(), thorough=False)
     jobs += vshape_jobs(scenarios.CATALOGUE.items(), thorough=False)
     jobs += reuse_jobs(scenarios.CATALOGUE.items(), thorough=False)
+    jobs += badpair_jobs(scenarios.CATALOGUE.items(), thorough=False)
     # a slice of the generated family (the first scenarios of the thorough tier's window)
     fs, fam2, _, fam3, _ = gen_families(seed)
     q2 = fam2[:int(os.environ.get("VERIF_QGEN2", "160"))]
@@ -284,6 +302,7 @@ def thorough_jobs(seed=0):
     jobs += sync_jobs(scenarios.CATALOGUE.items(), thorough=True)
     jobs += vshape_jobs(scenarios.CATALOGUE.items(), thorough=True)
     jobs += reuse_jobs(scenarios.CATALOGUE.items(), thorough=True)
+    jobs += badpair_jobs(scenarios.CATALOGUE.items(), thorough=True)
     fs, fam2, tot2, fam3, tot3 = gen_families(seed)
     jobs += sync_jobs([(f"gen2-{fs}-{i}", sc) for i, sc in enumerate(fam2)], thorough=False,
                       max_exec=2000)
